@@ -21,7 +21,7 @@ ASSUMPTIONS = ["a run that exceeds the per-case time limit counts as non-termina
 
 
 def gen(rng, tier):
-    n = 70 if tier == "quick" else 900
+    n = 140 if tier == "quick" else 1400
     cases = []
     for i in range(n):
         cases.append(EG.gen_case(rng, enum=EG.ALL_ENUMS[i % len(EG.ALL_ENUMS)]))
